@@ -11,6 +11,10 @@ def gen_frame(seed, cooldown=None, scenario=None, min_pre=5):
   """Specification of an experiment frame (JSON-able)."""
   rng = random.Random(seed)
   n_pre = rng.randint(min_pre, 40)
+  rd = random.Random(seed * 47 + 9)
+  degenerate = rd.random() < 0.15
+  if degenerate and rd.random() < 0.5:
+    n_pre = rd.choice([3, 4])                      # the shortest pre-periods on which the posterior exists
   n_test = rng.randint(3, 14)
   n_cool = (rng.choice([0, 0, 3, 6]) if cooldown is None else (rng.randint(2, 6) if cooldown else 0))
   nd = n_pre + n_test + n_cool
@@ -35,6 +39,14 @@ def gen_frame(seed, cooldown=None, scenario=None, min_pre=5):
         c = sc * (10 + rng.gauss(0, 1)) + (sc * rng.choice([6.0, 12.0]) if (grp == 2 and in_test) else 0.0)
       cost.append(round(c * 8) / 8)
     geos.append({'id': g + 1, 'group': grp, 'response': resp, 'cost': cost})
+  if degenerate:
+    kind = rd.choice(['negative', 'tiny-test', 'one-geo-each'])
+    if kind == 'negative':                         # responses are net changes: negative levels
+      for g in geos:
+        g['response'] = [v - 700.0 for v in g['response']]
+    elif kind == 'one-geo-each':                   # one geo per group
+      keep = [next(g for g in geos if g['group'] == 1), next(g for g in geos if g['group'] == 2)]
+      geos[:] = keep
   int_values = random.Random(seed * 43 + 5).random() < 0.2
   if int_values:
     # counts: whole numbers, stored in integer columns
